@@ -412,9 +412,12 @@ func c06Run(c c06Case) (fail *vlib.Failure, rs c06Stats) {
 			if !fresh {
 				return vlib.Failf("%s: after the copy-on-write fault page %s maps frame %s which was not freshly allocated during the fault", when, pg(page), m.ff(nl.Frame)), rs
 			}
+			// the accessed and dirty bits (5, 6) are the processor's book-keeping, set again by the
+			// next access: whether the handler carries them over or clears them is its business
+			const c06StatusBits = uint64(1<<5 | 1<<6)
 			wantFlags := (uint64(leaf&^vmFrameMask) | uint64(FlagRW)) &^ uint64(FlagCopyOnWrite)
-			if nl.Flags != wantFlags {
-				return vlib.Failf("%s: after the copy-on-write fault page %s has flags %#x, want %#x (writable, CoW cleared, rest unchanged)", when, pg(page), nl.Flags, wantFlags), rs
+			if nl.Flags&^c06StatusBits != wantFlags&^c06StatusBits {
+				return vlib.Failf("%s: after the copy-on-write fault page %s has flags %#x, want %#x (writable, CoW cleared, permissions and attributes unchanged; accessed/dirty not compared)", when, pg(page), nl.Flags, wantFlags), rs
 			}
 			if !bytes.Equal(m.frameBytes(mm.Frame(nl.Frame)), pageBefore) {
 				return vlib.Failf("%s: the private copy of page %s does not equal what the page showed before the fault", when, pg(page)), rs
